@@ -151,7 +151,7 @@ Section Run.
     | o :: r => let '(s', out) := step s o in if is_panic out then None else apply_prefix s' r
     end.
 
-  Definition run_trie (start alphabet prefix : string) (depth : nat) (chunks : list string)
+  Definition run_trie (start alphabet prefix state0 : string) (depth : nat) (chunks : list string)
     : list (N * str) :=
     match start_state (text [start]) with
     | None => [(999999, [])]
@@ -159,6 +159,8 @@ Section Run.
         match apply_prefix s0 (ops_of (text [prefix])) with
         | None => [(999998, [])]
         | Some s =>
+            if negb (seqb (state_text s) (text [state0])) then [(999995, state_text s)]
+            else
             let lines := removelast (split 10 (text chunks)) in
             let '(diffs, _, rest) := trie depth (ops_of (text [alphabet])) s (state_text s) 0 lines in
             match rest with
@@ -168,8 +170,8 @@ Section Run.
         end
     end.
 
-  (** listed history:  start "#" ops "#" obs "#" obs ...   (one observation per operation; the
-      history ends after a panic) *)
+  (** listed history:  start "#" ops "#" start-state "#" obs "#" obs ...   (one observation per
+      operation; the history ends after a panic) *)
   Fixpoint run_ops (s : state) (prev : str) (i : N) (ops : list op) (obs : list str) : list (N * str) :=
     match ops, obs with
     | o :: ops', e :: obs' =>
@@ -181,10 +183,11 @@ Section Run.
     end.
   Definition run_history (line : str) : list (N * str) :=
     match split (ch "#") line with
-    | st :: ops :: obs =>
+    | st :: ops :: st0 :: obs =>
         match start_state st with
         | None => [(999999, [])]
-        | Some s => run_ops s (state_text s) 0 (ops_of ops) obs
+        | Some s => if negb (seqb (state_text s) st0) then [(999995, state_text s)]
+                    else run_ops s (state_text s) 0 (ops_of ops) obs
         end
     | _ => [(999996, [])]
     end.
